@@ -254,11 +254,18 @@ inductive Op where
   | threadEnd (th : Nat)             -- the thread with token `th` has finished: its Thread object is never seen again
                                      -- (the OS may hand its ident / name to a LATER thread, which is a different token);
                                      -- nothing in tools.py reacts to it - the entries the thread left behind stay
+  | outside (what : Nat)             -- an event of ANOTHER feature happens on the thread, between two operations of the history:
+                                     -- 1 the function is used in asyncio mode (`.asyncio()`, or `.asynq()` under a running
+                                     --   `fn.asyncio()`: tools.py:352-357 hand the call to `self.fn.asyncio` BEFORE the key is made),
+                                     -- 2 a debug / profiling option is switched, 3 asynq.mock.patch replaces and restores the
+                                     -- function, 4 a receiver instance / a bound wrapper is copied, 5 the garbage collector runs,
+                                     -- 6 the synchronous call `f(args)` (AsyncDecorator.__call__ -> _call_pure: no table access).
+                                     -- None of them reads or writes `DeduplicateDecorator.tasks`.
   deriving Repr, DecidableEq, Inhabited
 
 def Op.name : Op → String
   | .call _ => "call" | .dirty _ => "dirty" | .start _ => "start" | .resume _ _ => "resume"
-  | .suspend _ => "suspend" | .complete _ _ => "complete" | .threadEnd _ => "threadEnd"
+  | .suspend _ => "suspend" | .complete _ _ => "complete" | .threadEnd _ => "threadEnd" | .outside _ => "outside"
 
 inductive Res where
   | ret (t : Nat) (new : Bool)   -- the task returned, and whether this call created it
@@ -342,6 +349,7 @@ def step (fns : List FnDecl) (s : St) : Op → St × Res
         -- the key may already belong to a newer in-flight task (tools.py:366-370)
         (if task.reg && mget s'.table task.key == some t then { s' with table := merase s'.table task.key } else s', .unit)
   | .threadEnd _ => (s, .unit)      -- no code runs: the table is process-wide and keyed by the Thread OBJECT
+  | .outside _ => (s, .unit)        -- code of other features runs; none of it touches the table
 
 def observe (fns : List FnDecl) (s : St) (op : Op) : St × Obs :=
   let (s', r) := step fns s op
@@ -563,6 +571,8 @@ def watchStep (fns : List FnDecl) (w : Watch) (ob : Obs) : Except String Watch :
           "schedule-result"
   -- the end of a thread ends nothing: the calls it left in flight stay in flight (for that thread token only)
   | .threadEnd _ => unit w "schedule-result"
+  -- an event of another feature ends nothing and starts nothing: whatever is in flight stays in flight
+  | .outside _ => unit w "outside-result"
 
 /-- what an observation may say about `len(DeduplicateDecorator.tasks)`, given the size after the previous one:
     a call that returns a new task adds at most one entry, a dirty() / completion that returns normally removes
@@ -592,5 +602,50 @@ def specClause (fns : List FnDecl) (obs : List Obs) : String :=
   match watchRun fns Watch.init 0 obs with
   | .ok _ => "ok"
   | .error e => e
+
+/-! ## Part 4: the decoration phase - `deduplicate(keygetter=None)` returns ONE decorator object that may be applied to
+    several functions (tools.py:385-431) -/
+
+/-- the keygetter a `DeduplicateDecorator` is constructed with: derived from a signature (the default), or the
+    caller's own function (token) -/
+inductive KeyFn where
+  | ofSig (s : Sig)
+  | custom (g : Nat)
+  deriving Repr, DecidableEq, Inhabited
+
+/-- a decorator object `deduplicate(keygetter)`: the closure `decorator`; its only cell is the captured `keygetter`
+    (`none` = `None`) -/
+structure DecoObj where
+  captured : Option KeyFn
+  deriving Repr, DecidableEq, Inhabited
+
+/-- one application `decorator(fun)` (tools.py:420-431): a LOCAL `_keygetter` is the captured one or, if that is None,
+    the default derived from `fun`'s own signature; the cell is not assigned.  Result: the object afterwards and the
+    keygetter handed to `DeduplicateDecorator(fun, task_cls, _keygetter)` -/
+def DecoObj.apply (o : DecoObj) (s : Sig) : DecoObj × KeyFn :=
+  match o.captured with
+  | some g => (o, g)
+  | none => (o, .ofSig s)
+
+def setObj (objs : List DecoObj) (i : Nat) (o : DecoObj) : List DecoObj := objs.set i o
+
+/-- the decoration phase of a program: applications `(object index, signature of the decorated function)` in program
+    order; `none` = no such object -/
+def decorateAll (objs : List DecoObj) : List (Nat × Sig) → List DecoObj × List (Option KeyFn)
+  | [] => (objs, [])
+  | (i, s) :: r =>
+    match objs[i]? with
+    | none => let (objs', ks) := decorateAll objs r; (objs', none :: ks)
+    | some o =>
+      let (o', k) := o.apply s
+      let (objs', ks) := decorateAll (setObj objs i o') r
+      (objs', some k :: ks)
+
+/-- every object was made by `deduplicate()` / `deduplicate(keygetter=None)` -/
+def allDefault (objs : List DecoObj) : Bool := objs.all fun o => o.captured.isNone
+
+/-- the keygetter `step` uses for a function (`d.sig.key`) is the one the decoration phase produced for it -/
+def keyFnsAgree (fns : List FnDecl) (ks : List (Option KeyFn)) : Bool :=
+  ks == fns.map fun d => some (.ofSig d.sig)
 
 end AsynqModel.Dedup
